@@ -13,7 +13,7 @@ PROPS = {
     "C12": dict(
         mc=[dict(tla="BridgeVerify_MC.tla", cfg="BridgeVerify_MC.cfg", tier="quick", timeout=600, workers=4),
             dict(tla="BridgeVerify_MC.tla", cfg="BridgeVerify_MC_deep.cfg", tier="thorough", timeout=2400)],
-        drive=dict(family="bridge", nrand=dict(quick=20, thorough=300), timeout=3600),
+        drive=dict(family="bridge", nrand=dict(quick=300, thorough=3000), timeout=3600),
         trace=dict(tla="BridgeVerify_Trace.tla", cfg="BridgeVerify_Trace_C12.cfg", steps_per_line=1, timeout=3000),
         rule="one script = one chain: 1-4 validators (secp256k1 consensus keys), a chain id of 1..17 bytes, blocks with "
              "scripted header time (seconds and nanoseconds, incl. 0 ns), commit round (0,1,2,300), proposer, block/app version, "
